@@ -129,6 +129,16 @@ CLAIMED = {
         note=TB,
         technique="Lean 4 proof (List.mergeSort permutation/sortedness/sublist lemmas) + correspondence check",
         ref="DESIGN.md section 5 C15"),
+    "C16": dict(
+        text="Kernel-checked: field exactness of the integer encodings (a u8/u16/u32/u64/i32 field reads back the exact value iff it is in range; otherwise value mod 2^n is what is written — so every unguarded cast is "
+             "visible); the Spec table decoders recover exactly the stco/stss/stsz/stts/ctts/stsc values the model wrote; for every reachable writer state on which finalize succeeds the values handed to the "
+             "encoders are in range (stts deltas, mdhd sums, sizes, counts, composition offsets, width/height); chunk offsets are exact in all layouts (standard A/V under the file-size guard); writeVideo "
+             "rejects gaps > 2^32-1 and |pts-dts| >= 2^31, finalize rejects track durations > 2^32-1 and dimensions > 65535. Oracle on the implementation: every duration/offset/size/count/length field "
+             "recomputed from the history with unbounded arithmetic, with boundary triples around every field limit (2^32 total and gap, 2^31 offset, 65535/65536 lengths, dims, channels, rates, 2^53/2^63/2^64 ticks, fragmented gaps).",
+        note=TB + "Known findings (open): param-set-length, f-param-set-length (16-bit lengths of parameter sets >= 65536 bytes), audio-entry-rate (16.16 rate >= 65536), f-trun-duration, f-trun-cts (fragmented writer has no error path). "
+             "Box sizes above 4 GiB (moov/moof) are not reachable in a test and appear as hypotheses.",
+        technique="Lean 4 proof (range invariants on all successful paths, encoder/decoder exactness) + boundary-value correspondence check",
+        ref="DESIGN.md section 5 C16"),
     "C17": dict(
         text="Kernel-checked path equivalences on the model: finish = finish_with_stats = in-place forms (same state, same chunks); audio codec None = no audio; encode_video/encode_audio are the explicit writes at the "
              "accumulated timestamp; an accepted write queues exactly what the inner writer queues for the tick values (timestamps matter only through ticks); the finish result is a function of writer state + "
@@ -146,6 +156,14 @@ CLAIMED = {
         note=TB + "The u32 year counter and the running time of the year loop for astronomically large times belong to C12.",
         technique="Lean 4 proof (loop invariant over the year/month loops, omega) + correspondence check",
         ref="DESIGN.md section 5 C18"),
+    "C19": dict(
+        text="Kernel-checked: the strict decoders (written from ISO/IEC 14496-12/-14/-15 and the AV1/VP9/Opus bindings: exact size, version/flags, reserved values, field positions) accept the model's mvhd, mdhd, hdlr, smhd, "
+             "dinf/dref/url, visual and audio sample entries, avcC, hvcC, av1C, vpcC, esds, dOps and the fragmented mvhd/tkhd/vmhd/dinf/trex/sample entries and return the configured values (timescales, dimensions, "
+             "handler types, identity matrix, track ids 1/2 with next_track_ID above them); the two recorded non-conformances are proved as counterexample theorems (progressive tkhd: 88-byte payload, flags 0; vmhd "
+             "flags 0) with partial theorems for the fields that are placed correctly. The same strict decoders run on the implementation's files and init segments for all codec x audio x metadata x layout configurations.",
+        note=TB + "Known findings (open, pinned by the repository's golden fixture): v-tkhd-layout, a-tkhd-layout, v-vmhd; audio-entry-rate. The strict decoders are the trusted reading of the standards (DESIGN.md Appendix A).",
+        technique="Lean 4 proof (strict decoder ∘ builder = expected fields; counterexample theorems for recorded findings) + strict-decoder oracle on the implementation's output",
+        ref="DESIGN.md section 5 C19"),
     "C20": dict(
         text="Kernel-checked on the model of the binary's pure logic: hex decoding inverts hex printing for every byte string; whatever `validate` accepts decodes to a non-empty frame; the `info` walk lists "
              "only entries with a complete header inside the file, complete boxes except possibly a final `invalid` entry, and makes progress (bounded by the file length) on arbitrary contents. "
